@@ -500,6 +500,7 @@ def run(repo: Repo, ctx) -> None:
     _r8(repo, ctx)
     _r9(repo, ctx)
     _r10(repo, ctx)
+    _r11(repo, ctx)
 
 
 OBJS = 'edb.schema.objects'
@@ -910,3 +911,108 @@ def _r6(repo: Repo, ctx) -> None:
            ok, 'renaming an owned child does not refresh the referrer\'s '
            'name-keyed index on every path', rr.loc,
            sample='referrer.refresh_classref(schema, refdict.attr)')
+
+
+def _r11(repo: Repo, ctx) -> None:
+    """C04.R11 three more index / reference disciplines.
+
+    (a) threaded accumulators: a FlatSchema method that takes a working copy
+        of an index (`x = self._x`) and rebinds it step by step reads that
+        index only through the working copy afterwards; going back to
+        `self._x` discards the updates already made in this call (a rename
+        then leaves the old short-name entry behind).
+    (b) a collection's name is derived from its own data the same way
+        everywhere: when RenameType re-derives a tuple's name it takes the
+        element *names* from get_element_types(), as Tuple.create does, not
+        positions from enumerate(get_subtypes()).
+    (c) SET TYPE on a link updates the link's own `@target` property whenever
+        the command is not canonical -- also for the propagated copies that
+        run on inherited links; otherwise the child's @target keeps pointing
+        at the old type, which a later DROP TYPE leaves dangling."""
+    ctx.floor('C04.R11', 4)
+    fs = repo.cls('edb.schema.schema.FlatSchema')
+    n = 0
+    for mname, f in sorted(fs.methods.items()):
+        work = {}
+        for a in f.node.body:
+            if isinstance(a, ast.Assign) and len(a.targets) == 1 and \
+                    isinstance(a.targets[0], ast.Name) and isinstance(
+                    a.value, ast.Attribute) and norm(a.value.value) == \
+                    'self' and a.value.attr.startswith('_'):
+                work[a.value.attr] = (a.targets[0].id, a)
+        for attr, (loc, first) in work.items():
+            rebinds = [x for x in ast.walk(f.node) if isinstance(x, ast.Assign)
+                       and x is not first and any(
+                           isinstance(t, ast.Name) and t.id == loc
+                           for t in x.targets)]
+            if not rebinds:
+                continue
+            n += 1
+            ctx.saw(f)
+            stale = [x.lineno for x in ast.walk(f.node)
+                     if isinstance(x, ast.Attribute) and x.attr == attr
+                     and norm(x.value) == 'self' and x is not first.value
+                     and isinstance(x.ctx, ast.Load)]
+            ctx.ob('C04.R11', f'FlatSchema.{mname}:{attr}-through-working-copy',
+                   not stale,
+                   f'FlatSchema.{mname} updates its working copy `{loc}` of '
+                   f'self.{attr} and then reads self.{attr} again (line '
+                   f'{stale[:2]}): the updates made so far in this call are '
+                   f'lost, e.g. the removal of the old short name on a '
+                   f'rename, so a lookup by the old name still finds the '
+                   f'object (or, after a drop, an id that no longer exists)',
+                   f.loc, sample=f'{loc} = self.{attr}; only {loc} after')
+    if n < 3:
+        raise AnalysisError('C04.R11: threaded index copies not found')
+    # (b)
+    rt = repo.cls('edb.schema.types.RenameType')
+    cz = rt.methods.get('_canonicalize')
+    if cz is None:
+        raise AnalysisError('C04.R11: RenameType._canonicalize not found')
+    ctx.saw(cz)
+    k = 0
+    for c in ast.walk(cz.node):
+        if isinstance(c, ast.Call) and norm(c.func) == 'Tuple.generate_name' \
+                and c.args:
+            k += 1
+            from ..model import inline_locals
+            src = inline_locals(cz.node, c.args[0])
+            ok = 'get_element_types' in src and 'enumerate' not in src
+            ctx.ob('C04.R11', 'RenameType._canonicalize:tuple-name-from-'
+                   'element-names', ok,
+                   f'the new name of a renamed tuple is generated from '
+                   f'`{src[:70]}`: Tuple.create keys the name by element '
+                   f'*names*, so a named tuple is re-registered under a name '
+                   f'its own data does not produce; the next use of the same '
+                   f'type misses it and creates a duplicate object',
+                   f'{cz.module.rel()}:{c.lineno}',
+                   sample='get_element_types(schema).items(schema)')
+    if k < 1:
+        raise AnalysisError('C04.R11: Tuple.generate_name call not found')
+    # (c)
+    from ..absint import Facts
+    sl = repo.cls('edb.schema.links.SetLinkType')
+    ab = sl.methods.get('_alter_begin')
+    if ab is None:
+        raise AnalysisError('C04.R11: SetLinkType._alter_begin not found')
+    ctx.saw(ab)
+    guards = [t for t in ast.walk(ab.node) if isinstance(t, ast.If) and any(
+        isinstance(c, ast.Call) and isinstance(c.func, ast.Attribute)
+        and c.func.attr == 'maybe_get_ptr' and any(
+            isinstance(x, ast.Constant) and x.value == 'target'
+            for x in ast.walk(c)) for b in t.body for c in ast.walk(b))]
+    outer = [t for t in guards if not any(
+        t is not o and any(x is t for x in ast.walk(o)) for o in guards)]
+    if not outer:
+        raise AnalysisError('C04.R11: @target update of SetLinkType not '
+                            'found')
+    fx = Facts({'context.canonical': False}, fn_node=ab.node)
+    v = fx.eval(outer[0].test)
+    ctx.ob('C04.R11', 'SetLinkType._alter_begin:target-prop-follows', v is True,
+           f'the update of the link\'s own @target property runs under '
+           f'`{norm(outer[0].test)[:80]}`, i.e. not for every non-canonical '
+           f'SET TYPE: on an inherited copy of the link the @target '
+           f'property keeps the old type, nothing stops a later DROP of '
+           f'that type, and the schema is left with a dangling reference',
+           f'{ab.module.rel()}:{outer[0].lineno}',
+           sample='if not context.canonical')
